@@ -36,6 +36,7 @@ def jobs(tier):
         js.append({"for": "C14", "country": country, "subject": ["OUT", "SELL"], "filter": "none", "method": "fifo", "b2": "sell", "b1": "hold"})
         # one symbolic UTC offset for all timestamps: the window and the printed dates are those of the local calendar date
         js.append({"for": "C14", "country": country, "subject": ["OUT", "SELL"], "filter": "from-to", "method": "fifo", "b2": "buy", "off": "shared"})
+    js.append({"for": "C14", "country": "us", "subject": ["OUT", "SELL"], "filter": "none", "method": "fifo", "b2": "buy", "then_income": True, "years": [2020, 2021]})
     js.append({"for": "C14", "country": "us", "subject": ["OUT", "GIFT"], "filter": "none", "method": "hifo", "b2": "sell"})
     js.append({"for": "C14", "country": "us", "subject": ["INTRA", "MOVE"], "filter": "none", "method": "lifo", "b2": "sell"})
     if tier == "thorough":
@@ -59,6 +60,8 @@ def jobs(tier):
             if method != "fifo":
                 for filt in ("none",) if tier == "quick" else ("none", "from", "to", "from-to"):
                     js.append({"for": "C16", "country": country, "lang": LANGS[country][0], "method": method, "filter": filt, "shape": "BS+B"})
+                if country == "us" or tier == "thorough":
+                    js.append({"for": "C16", "country": country, "lang": LANGS[country][0], "method": method, "filter": "none", "shape": "BIS+I"})
     return js
 
 
@@ -68,7 +71,7 @@ def select(prop, spec):
 
 def describe(spec):
     if spec["for"] == "C14":
-        return "C14 %s subject=%s:%s filter=%s %s B2=%s%s" % (spec["country"], spec["subject"][0], spec["subject"][1], spec["filter"], spec["method"], spec["b2"], " +sell" if spec.get("b1sell") else "") + (" B1=hold-only" if spec.get("b1") == "hold" else "") + (" offset=shared" if spec.get("off") else "")
+        return "C14 %s subject=%s:%s filter=%s %s B2=%s%s" % (spec["country"], spec["subject"][0], spec["subject"][1], spec["filter"], spec["method"], spec["b2"], " +sell" if spec.get("b1sell") else "") + (" B1=hold-only" if spec.get("b1") == "hold" else "") + (" offset=shared" if spec.get("off") else "") + (" then-income 2020-2021" if spec.get("then_income") else "")
     return "C16 %s lang=%s %s filter=%s %s%s" % (spec["country"], spec["lang"], spec["method"], spec["filter"], spec["shape"], " symbolic-instants" if spec.get("symbolic_instants") else "") + (" [accounting_methods] %d" % spec["config_schedule"] if spec.get("config_schedule") else "")
 
 
@@ -149,6 +152,8 @@ def run_c14(S, spec):
     s1 = [slot("IN", "BUY", asset="B1"), subj] + ([slot("OUT", "SELL", asset="B1")] if spec.get("b1sell") else [])
     if spec.get("b1") == "hold":
         s1 = s1[:1]
+    if spec.get("then_income"):
+        s1.append(slot("IN", "INTEREST", asset="B1"))  # an income row right after a (possibly long-term) disposal
     s2 = [slot("IN", "BUY", asset="B2")]
     if spec["b2"] == "same":
         s2.append(dict(subj, asset="B2"))  # both assets write on the subject's sheet
@@ -159,9 +164,11 @@ def run_c14(S, spec):
     for i, s in enumerate(s2):
         s["row"] = 10 + i
     off = S.int("off", -720, 840) if spec.get("off") else None
-    h1 = Hist(S, s1, [2020], prefix="x", shared_off=off, shared_sym=off is not None)
-    h2 = Hist(S, s2, [2020], prefix="y", shared_off=off, shared_sym=off is not None)
-    from_date, to_date = _dates(S, spec, [2020])
+    yrs = spec.get("years", [2020])
+    S.set_years(yrs)
+    h1 = Hist(S, s1, yrs, prefix="x", shared_off=off, shared_sym=off is not None)
+    h2 = Hist(S, s2, yrs, prefix="y", shared_off=off, shared_sym=off is not None)
+    from_date, to_date = _dates(S, spec, yrs)
     cfg = make_cfg(country, from_date=from_date, to_date=to_date, allow_negative=True)
     cds = _compute(S, cfg, spec["method"], {"B1": h1, "B2": h2})
     if cds is None:
@@ -273,13 +280,21 @@ def run_c16(S, spec):
     fixed = not spec.get("symbolic_instants")
     years = [2020, 2021] if fixed else [2020]
     S.set_years(years)
-    h1 = Hist(S, s1, years, prefix="x", fixed_t=[us_of(2020, 3, 10, 12), us_of(2020, 9, 30, 23), us_of(2021, 6, 1, 0)][: len(s1)] if fixed else None)
+    h1 = Hist(S, s1, years, prefix="x", fixed_t=[us_of(2020, 3, 10, 12), us_of(2020, 9, 30, 23), us_of(2021, 6, 1, 0), us_of(2021, 6, 2, 0)][: len(s1)] if fixed else None)
     h2 = Hist(S, s2, years, prefix="y", fixed_t=[us_of(2020, 12, 31, 23, 59, 59)][: len(s2)] if fixed else None)
     from_date, to_date = _dates(S, spec, years)
     cfg = make_cfg(country, from_date=from_date, to_date=to_date, allow_negative=True)
     cds = _compute(S, cfg, spec["method"], {"B1": h1, "B2": h2}, year=str(spec.get("config_schedule") or 2020))
     if cds is None:
-        return "error"
+        # rejected by the tax engine: legitimate only when some disposal is not covered by the lots acquired up to it
+        for hh in (h1, h2):
+            n = len(hh.slots)
+            disp = [i for i in range(n) if hh.slots[i]["table"] != "IN"]
+            lots = [i for i in range(n) if hh.slots[i]["table"] == "IN"]
+            covered = all(not sum(hh.need(e) for e in disp if hh.t[e] <= hh.t[d]) > sum(hh.a[l] for l in lots if hh.t[l] <= hh.t[d]) for d in disp)
+            if not covered:
+                return "error"
+        S.fail("C16", "valid-input-rejected", "every disposal is covered by earlier lots, yet the tax computation refused the input")
     ran = []
     for gen in sorted(cfg.country.get_report_generators()):
         _reset(gen)
